@@ -1366,7 +1366,42 @@ func ghostModifies(m Clause) (string, ast.Expr, bool) {
 	return "", nil, false
 }
 
+// typeWideModifies: `modifies allof(e)`: every element of every slice block of e's element type may change (for
+// functions that write a family of slices no single expression can name, e.g. all 65536 bucket slices).
+func typeWideModifies(m Clause) (ast.Expr, bool) {
+	if c, ok := ast.Unparen(m.Expr).(*ast.CallExpr); ok {
+		if id, ok := c.Fun.(*ast.Ident); ok && id.Name == "allof" && len(c.Args) == 1 {
+			return c.Args[0], true
+		}
+	}
+	return nil, false
+}
+
+// typeWideSlice: the slice type named by the argument of allof(): a slice type literal ([]uint64) or a slice-typed expression.
+func (u *Unit) typeWideSlice(env *SpecEnv, arg ast.Expr) *types.Slice {
+	var t types.Type
+	if at, isType := ast.Unparen(arg).(*ast.ArrayType); isType && at.Len == nil {
+		_, t = env.specSort(u.exprText(arg))
+	} else if v := env.eval(arg); v.T != nil {
+		t = v.T
+	}
+	if t == nil {
+		return nil
+	}
+	sl, _ := t.Underlying().(*types.Slice)
+	return sl
+}
+
 func (u *Unit) havocTarget(st *State, env *SpecEnv, m Clause) {
+	if arg, ok := typeWideModifies(m); ok {
+		if sl := u.typeWideSlice(env, arg); sl != nil {
+			u.havocHeap(st, u.elemHeap(sl.Elem()))
+			return
+		}
+		u.c.note("modifies allof(%s): not a slice-typed expression", m.Text)
+		u.havocAllHeaps(st)
+		return
+	}
 	if name, arg, ok := ghostModifies(m); ok {
 		ref := env.eval(arg)
 		h := u.ghostHeap(name)
